@@ -40,6 +40,9 @@ func Null() *os.File {
 // New returns an emulator of the given size with no child attached.
 func New(cols, rows int) *term.Model { return term.NewVerif(Null(), cols, rows) }
 
+// NewTo is New with what the emulator sends to its child written to w.
+func NewTo(w *os.File, cols, rows int) *term.Model { return term.NewVerif(w, cols, rows) }
+
 // Parse turns child output into the sequences the PTY goroutine would
 // receive, using the library's parser. The parser interprets a lone ESC by a
 // 10 ms timer; when input is complete that timer can only fire if the parser
